@@ -68,11 +68,18 @@ theorem every_pausable_endpoint_reaches_the_check :
     ∀ n ∈ pausableEndpoints, ∃ e ∈ Generated.itsEndpoints, e.name = n ∧ reachesPauseCheck e = true := by
   decide
 
-/-- the raw functions the model guards are exactly those the source guards -/
-theorem guarded_functions :
-    ["deploy_interchain_token", "deploy_interchain_token_raw", "deploy_remote_interchain_token_raw", "execute",
-     "interchain_transfer", "call_contract_with_interchain_token", "link_token_raw", "register_custom_token_raw"].all
-      (fun f => Generated.startsWithPauseCheck.contains f) = true := by decide
+/-- the endpoints that do their work themselves START with the pause check (directly, or by first calling a
+    function that does) — stated through the exported endpoint names, so that renaming a Rust function is harmless -/
+theorem direct_endpoints_start_with_the_check :
+    ∀ n ∈ ["execute", "interchainTransfer", "callContractWithInterchainToken", "deployInterchainToken"],
+      ∃ e ∈ Generated.itsEndpoints, e.name = n ∧ Generated.startsWithPauseCheck.contains e.rustFn = true := by
+  decide
+
+/-- the second transaction of a remote deployment (the callback of the token lookup) reaches a function that
+    starts with the pause check before it sends anything -/
+theorem a_callback_reaches_the_check :
+    ∃ cb ∈ Generated.itsCallbacks, cb.calls.any (fun c => Generated.startsWithPauseCheck.contains c) = true := by
+  decide
 
 /-- owner-only and operator-only annotations in the source -/
 theorem privileged_annotations :
